@@ -42,8 +42,10 @@ PROPS = {
              trusted=["crypto/aes modelled as an arbitrary lawful block cipher; executable AES validated by correspondence"]),
     "C05": P("full sender pipeline (encrypt FRMPayload -> encrypt FOpts (1.1) -> set MIC -> marshal) and receiver pipeline (unmarshal -> set 32-bit FCnt -> validate -> decrypt/decode FOpts -> decrypt FRMPayload) "
              "through the public API on valid data frames, both directions, both versions; per frame 1 untampered run + single-bit corruptions at random positions and single-parameter mismatches "
-             "(FNwkSIntKey, SNwkSIntKey, FCnt upper 16 bits, ConfFCnt, txDR, txCh, version)",
-             trusted=["crypto/aes as C02", "the 32-bit FCnt reconstruction (upper 16 bits) is supplied by the caller, as in a real network server"]),
+             "(FNwkSIntKey, SNwkSIntKey, FCnt upper 16 bits, ConfFCnt, txDR, txCh, version); four proprietary commands are registered first (one direction each) "
+             "and occur in the generated frames",
+             trusted=["crypto/aes as C02", "the 32-bit FCnt reconstruction (upper 16 bits) is supplied by the caller, as in a real network server"],
+             stateful=True, history_ops=("register",)),
     "C11": P("quick: every NetID type x {ID all-zero, all-one, one-hot, random} x boundary and random DevAddrs; thorough: ALL 2^24 NetIDs x rotating boundary/random DevAddrs; "
              "for each: assign prefix, membership of the original / the prefixed / a one-bit-flipped address, NetID type+ID, NwkID; all 256 first bytes for NetIDType; "
              "representations of the four identifier types: text (lower/upper case, 0x), binary, Scan/Value, and malformed inputs (wrong length, odd digits, bad characters, doubled prefix, non-[]byte Scan source)",
